@@ -248,3 +248,150 @@ def type_strategy(st, max_bits=16, allow_float=True, nonpo2_caps=False):
     opts.append(st.builds(lambda d, v: dict(d, via=v),
                           st.sampled_from(float_types()), via))
   return st.one_of(*opts)
+
+
+# --------------------------------------------------------------------------
+# operand objects with a history (C16 part H; format in vf/ref/qtypes.py)
+
+HIST_PRES = [[], ["exp"], ["acc"], ["mul"], ["qk"], ["inf"], ["fields"], ["exp", "clone"],
+             ["clone", "exp"], ["copy", "acc"], ["mul", "qk", "exp"]]
+HIST_POSTS = [[], ["exp"], ["clone"], ["qk", "mul"]]
+
+
+def _hist_family(kind, tier):
+  if kind == "po2":
+    bl = [2, 3, 4] if tier == "quick" else [2, 3, 4, 5, 6]
+    out = []
+    for b in bl:
+      for s in (1, 0):
+        for c in (None, 0, 2):
+          if _po2_ok(b, s, c) and (c is None or c <= (1 << (b - s - 1)) - 1 or c == 0):
+            out.append({"k": "po2", "bits": b, "signed": s, "max": c})
+    out.append({"k": "po2", "bits": 4, "signed": 1, "max": None, "mv": 3})
+    out.append({"k": "po2", "bits": 4, "signed": 0, "max": None, "mv": 6})
+    return out
+  if kind == "fixed":
+    bl = [2, 5] if tier == "quick" else [1, 2, 3, 5, 8]
+    return fixed_types(bl, lambda b: [0, 1, b])
+  return [{"k": "binary"}, {"k": "binary01"}]
+
+
+def _hist_starts(kind, tier):
+  """start types: the family + (fixed) an unsigned QuantizedBits object, which
+  only the factory route quantized_bits(keep_negative=0) creates"""
+  fam = _hist_family(kind, tier)
+  if kind == "fixed":
+    fam = fam + [{"k": "fixed", "bits": 3, "int": 1, "signed": 0, "q": "quantized_bits", "via": "factory"}]
+  return fam
+
+
+def hist_partners():
+  return [{"k": "fixed", "bits": 4, "int": 1, "signed": 1}, {"k": "fixed", "bits": 3, "int": 1, "signed": 0},
+          {"k": "po2", "bits": 3, "signed": 1, "max": None}, {"k": "ternary"}, {"k": "binary01"}]
+
+
+def hist_updates(tier="quick"):
+  es = [-8, -2, 0, 1, 5] if tier == "quick" else [-8, -4, -2, -1, 0, 1, 2, 3, 5, 8]
+  out = []
+  for e in es:
+    for neg in (0, 1):
+      for reset in (1, 0):
+        out.append({"neg": neg, "e": e, "reset": reset})
+  return out
+
+
+def history_cases(tier="quick"):
+  """deterministic list of {"w","x","hw","hx","mode":"hist"}: every (start,
+  target) pair of a small family per kind x re-size route, the observation
+  prefixes / suffixes, partners and operand roles rotating with the running
+  index so that each occurs with every route and kind."""
+  from vf.ref import qtypes as R  # pylint: disable=g-import-not-at-top
+  out = []
+  n = 0
+  parts = hist_partners()
+  for kind in ("po2", "fixed", "bin"):
+    fam = _hist_family(kind, tier)
+    for start in _hist_starts(kind, tier):
+      for target in fam:
+        if start == target and kind != "bin":
+          continue
+        for resize in ("assign", "convert"):
+          if not R.history_ok(start, target, resize):
+            continue
+          for rep in range(2 if kind == "po2" else 1):
+            n += 1
+            h = {"start": with_via(start, n // 3), "resize": resize,
+                 "pre": HIST_PRES[n % len(HIST_PRES)], "post": HIST_POSTS[(n // 2) % len(HIST_POSTS)]}
+            p = with_via(parts[n % len(parts)], n // 5)
+            role = n % 3
+            if role == 0:
+              out.append({"w": target, "x": p, "hw": h, "hx": None, "mode": "hist"})
+            elif role == 1:
+              out.append({"w": p, "x": target, "hw": None, "hx": h, "mode": "hist"})
+            else:
+              other = fam[(n // 7) % len(fam)]
+              h2 = {"start": with_via(start, n // 2), "resize": "assign",
+                    "pre": HIST_PRES[(n // 3) % len(HIST_PRES)], "post": []}
+              out.append({"w": target, "x": other, "hw": h, "hx": h2, "mode": "hist"})
+  # update_quantizer route (po2 only): the target is read from the fields
+  fam = _hist_family("po2", tier)
+  for start in fam:
+    for u in hist_updates(tier):
+      n += 1
+      h = {"start": with_via(start, n // 3), "resize": "update", "upd": u,
+           "pre": HIST_PRES[n % len(HIST_PRES)], "post": HIST_POSTS[(n // 2) % len(HIST_POSTS)]}
+      p = with_via(parts[n % len(parts)], n // 5)
+      if n % 2:
+        out.append({"w": start, "x": p, "hw": h, "hx": None, "mode": "hist"})
+      else:
+        out.append({"w": p, "x": start, "hw": None, "hx": h, "mode": "hist"})
+  return out
+
+
+def history_strategy(st, max_bits=8):
+  """Hypothesis: a type pair in which one or both operands carry a history."""
+  from vf.ref import qtypes as R  # pylint: disable=g-import-not-at-top
+  ts = type_strategy(st, max_bits, allow_float=True, nonpo2_caps=True)
+  ops = st.lists(st.sampled_from(list(R.OPS)), max_size=3)
+
+  @st.composite
+  def same_family(draw, kind):
+    if kind == "po2":
+      s = draw(st.integers(0, 1))
+      b = draw(st.integers(1 + s, 6))
+      c = draw(st.sampled_from([None, None, -1, 0, 1, 2, 4]))
+      if not _po2_ok(b, s, c):
+        c = None
+      return {"k": "po2", "bits": b, "signed": s, "max": c, "via": draw(st.sampled_from(["impl", "factory"]))}
+    if kind == "fixed":
+      b = draw(st.integers(1, max_bits))
+      return {"k": "fixed", "bits": b, "int": draw(st.integers(0, b)), "signed": draw(st.integers(0, 1)),
+              "via": draw(st.sampled_from(["impl", "factory"]))}
+    return {"k": draw(st.sampled_from(["binary", "binary01"])), "via": draw(st.sampled_from(["impl", "factory"]))}
+
+  @st.composite
+  def operand(draw, force):
+    kind = draw(st.sampled_from(["po2", "po2", "fixed", "bin"])) if force else None
+    if kind is None:
+      return draw(ts), None
+    target = dict(draw(same_family(kind)))
+    target.pop("via")
+    start = draw(same_family(kind))
+    if kind == "fixed" and not start["signed"] and draw(st.integers(0, 2)) == 0:
+      start = dict(start, q="quantized_bits", via="factory")
+    resize = draw(st.sampled_from(["assign", "convert", "update"] if kind == "po2" else ["assign", "convert"]))
+    if not R.history_ok(start, target, resize):
+      resize = "assign"
+    h = {"start": start, "resize": resize, "pre": draw(ops), "post": draw(ops)}
+    if resize == "update":
+      h["upd"] = {"neg": draw(st.integers(0, 1)), "e": draw(st.integers(-8, 8)), "reset": draw(st.integers(0, 1))}
+      target = {k: v for k, v in start.items() if k != "via"}
+    return target, h
+
+  @st.composite
+  def case(draw):
+    who = draw(st.sampled_from(["w", "x", "both"]))
+    w, hw = draw(operand(who in ("w", "both")))
+    x, hx = draw(operand(who in ("x", "both")))
+    return {"w": w, "x": x, "hw": hw, "hx": hx, "mode": "hist"}
+  return case()
